@@ -141,7 +141,7 @@ func targetsToRemove(graph *core.BuildGraph, filter, targets, targetsToKeep []co
 		if sibling := gcSibling(graph, target); !sibling.HasParent() && !keepTargets[sibling] && !keepTargets[target] && isIncluded(sibling, filter) {
 			ret = append(ret, target.Label)
 			for _, src := range target.AllLocalSourcePaths() {
-				if !keepSrcs[src] {
+				if !isKeptSrc(keepSrcs, src) {
 					retSrcs = append(retSrcs, src)
 				}
 			}
@@ -152,6 +152,20 @@ func targetsToRemove(graph *core.BuildGraph, filter, targets, targetsToKeep []co
 	log.Notice("%d targets to remove", len(ret))
 	log.Notice("%d sources to remove", len(retSrcs))
 	return ret, retSrcs
+}
+
+// isKeptSrc returns true if the given source path must be kept: it is itself a kept source, it lies inside
+// a directory that is one, or it is a directory containing one.
+func isKeptSrc(keepSrcs map[string]bool, src string) bool {
+	if keepSrcs[src] {
+		return true
+	}
+	for kept := range keepSrcs {
+		if strings.HasPrefix(src, kept+"/") || strings.HasPrefix(kept, src+"/") {
+			return true
+		}
+	}
+	return false
 }
 
 // isIncluded returns true if the given target is included in a set of filtering labels.
